@@ -22,10 +22,13 @@
      "oracle:<clause>"       the reference differs from fontTools AND HarfBuzz, which agree
                              with each other: suspected oracle bug (machinery failure)
      "hb:<clause>"           HarfBuzz differs from the reference and fontTools: observer anomaly
-   Tolerances: Tol = 1/512 for fontTools (DESIGN.md C05), HbTol = 1/64 for HarfBuzz (32-bit
-   float coordinates), TriTol = 1/2 + 1/64 when the two observers are compared with each
-   other (they may legitimately differ by the rounding conventions LsbRounded /
-   AdvanceRounded named in GlyfSem).                                                     *)
+   Tolerances (derived, see the definitions below): outlines are compared on the integer grid
+   of 1/(2K) units -- fontTools within 4 grid units (1/512 unit, DESIGN.md C05), HarfBuzz within
+   32 (1/64: 32-bit float coordinates), the two observers against each other within 1/2 + 1/64
+   (they may legitimately differ by the rounding conventions LsbRounded / AdvanceRounded named
+   in GlyfSem); advances in exact rationals with the same three tolerances.
+   HarfBuzz's observation is present in every third case and, in a second pass, in every case
+   that failed "ft:outline" / "ft:advance" without it (the harness re-submits those).      *)
 EXTENDS TraceIO, GlyfSem
 
 PP == INSTANCE PenProto
@@ -117,10 +120,12 @@ OutlineClauses(F, INF, gi, nloc, variable, ref, c, K) ==
       hbOK == hb.ok /\ MatchesRef(ref, hb.o, FALSE, HbT, K)
   IN IF ~ft.ok THEN {"ft:pen-protocol"}
      ELSE IF ftOK THEN (IF hasHb /\ ~hbOK THEN {"hb:outline"} ELSE {})
-     ELSE LET devs == {k \in 1..3 : DevApplies(F, gi, k) /\
-                          LET r2 == Reference(F, INF, gi, nloc, DevOpts(k))
-                          IN r2.bad = "" /\ MatchesRef(r2, ft.o, variable, FtT, K)}
-          IN IF devs # {} THEN {"ft:outline:dev:" \o DevNames[CHOOSE k \in devs : \A j \in devs : k <= j]}
+     ELSE LET cand == {k \in 1..3 : DevApplies(F, gi, k)}
+              refs == TLCEval([k \in cand |-> Reference(F, INF, gi, nloc, DevOpts(k))])
+              devs == {k \in cand : refs[k].bad = "" /\ MatchesRef(refs[k], ft.o, variable, FtT, K)}
+          IN IF \E k \in cand : refs[k].bad = "" /\ (OutlineBad(refs[k].atoms) \/ RefGridBad(refs[k], K))
+             THEN {"skip:overflow"}      \* a named deviation cannot be evaluated in 31 bits: no verdict
+             ELSE IF devs # {} THEN {"ft:outline:dev:" \o DevNames[CHOOSE k \in devs : \A j \in devs : k <= j]}
              ELSE IF hasHb /\ hb.ok /\ ~hbOK /\ SameOutlineI(ft.o, hb.o, TriT(K)) THEN {"oracle:outline"}
              ELSE {"ft:outline"}
 
